@@ -1,13 +1,15 @@
-"""C19 (parsing / routing half) - advertisement parsing is robust and the scanner callback never raises.
-Real code: ble/manufacturer_data.py, ble/controller.py _device_detected, ble/pairing.py _async_description_update /
-_update_cached_state_num / _async_notification, controller/abstract.py _async_description_update.
-The waiter half (async_find wake-ups under all schedules, mDNS) needs a running event loop and is not decided."""
+"""C19 - device waiters are woken by advertisements; advertisement parsing is robust and the callbacks never raise.
+Real code: ble/manufacturer_data.py, ble/controller.py _device_detected / async_find, ble/pairing.py _async_description_update /
+_update_cached_state_num / _async_notification, controller/abstract.py _async_description_update, zeroconf.py
+HomeKitService.from_service_info / async_find / _async_handle_loaded_service_info.
+The waiter half is hand-driven (harness/c19w.py): bounded schedules of waiter starts, advertisements, cancellations and timeouts
+on the BLE and the mDNS controller.  The aggregate Controller.async_find (asyncio.create_task / asyncio.wait) is not decided."""
 from symx import Unit, as_rope, check_property, decide, int_to_rope, rope_eq, run_canaries, slen
 from symx.ideal import World
 from symx.rope import SymBytes
 
 from . import ble_adv as BA
-from . import common
+from . import c19w, common
 from .refs import rope
 
 PROP = "C19"
@@ -204,8 +206,9 @@ def detected_notification_unit(M):
 
 
 def build(tier, mutate=None):
-    C = BA.copies(mutate)
-    R = BA.reals()
+    C = c19w.copies_zc(BA.copies(mutate), mutate)
+    R = c19w.reals_zc(BA.reals())
+    nw, depth = (2, 4) if tier != "thorough" else (3, 5)
     units = [
         Unit("parse/HomeKitAdvertisement", parse_unit(C), parse_unit(R), split=True,
              bounds={"length": "0..24 (symbolic)", "bytes": "all symbolic except the 6 id bytes"}, regions=["ValueError", "parsed", "setup-hash"]),
@@ -218,10 +221,22 @@ def build(tier, mutate=None):
              bounds={"payload": NOTE_KINDS, "pairing": PAIRINGS, "nonce counter": "6..20", "short plaintext": "0..11 bytes"},
              regions=NOTE_KINDS),
     ]
+    for World in (c19w.BleWorld, c19w.MdnsWorld):
+        units.append(Unit("waiters/%s" % World.name, c19w.waiter_unit(C, World, nw, depth), c19w.waiter_unit(R, World, nw, depth), split=True,
+                          bounds={"waiters": nw, "ids": 2, "events": depth, "event alphabet": c19w.EVENTS2 if nw == 2 else c19w.EVENTS3,
+                                  "resume order of simultaneously ready waiters": "both", "pairing loaded for the advertised id": "yes / no"},
+                          regions=["woken", "timed-out", "cancelled"], diff_sample=400))
+    units.append(Unit("parse/HomeKitService.from_service_info", c19w.mdns_parse_unit(C), c19w.mdns_parse_unit(R),
+                      bounds={"address lists": c19w.ADDRS, "key spelling": "lower/upper/mixed", "id spelling": "lower/upper", "numbers": "present/absent"},
+                      regions=["parsed", "refused"], diff_sample=400))
     return units
 
 
 CANARIES = [
+    ("BLE waiter not registered", {BA.CTL: lambda s: s.replace("        self._ble_futures.setdefault(device_id, []).append(future)\n", "")}, lambda n: n == "waiters/ble"),
+    ("BLE set_result on finished futures", {BA.CTL: lambda s: s.replace("                if not future.done():\n                    future.set_result(discovery)", "                future.set_result(discovery)")}, lambda n: n == "waiters/ble"),
+    ("mDNS waiters looked up by the raw id", {c19w.ZC: lambda s: s.replace("        device_id = device_id.lower()\n\n        if discovery := self.discoveries.get(device_id):", "        if discovery := self.discoveries.get(device_id):")}, lambda n: n == "waiters/mdns"),
+    ("mDNS link-local addresses kept", {c19w.ZC: lambda s: s.replace("if not ip_addr.is_link_local and not ip_addr.is_unspecified", "if not ip_addr.is_unspecified")}, lambda n: n.startswith("parse/HomeKitService")),
     ("minimum length 15 -> 14", {BA.MFR: lambda s: s.replace("        if len(data) < 15:", "        if len(data) < 14:")}, lambda n: n.startswith("parse/HomeKitAdv") or n.startswith("callback/_device_detected/adv")),
     ("state and config number swapped", {BA.MFR: lambda s: s.replace("acid, gsn, cn, cv = UNPACK_HHBB(data[9:15])", "acid, cn, gsn, cv = UNPACK_HHBB(data[9:15])")}, lambda n: n.startswith("parse/HomeKitAdv")),
     ("futures of every id fulfilled", {BA.CTL: lambda s: s.replace("        if futures := self._ble_futures.get(data.id):", "        for futures in list(self._ble_futures.values()):")}, lambda n: n.startswith("callback/_device_detected/adv")),
@@ -232,7 +247,8 @@ ASSUMPTIONS = [
     "every Apple manufacturer-data byte string of length 0..24 with symbolic content (the 6 device-id bytes are concrete so that routing can hit the loaded pairing); Categories/StatusFlags (IntFlag: every non-negative int is accepted) are identity wrappers on the symbolic side",
     "pairings are built with object.__new__ (no cached accessory state / cached state / none loaded); BleDiscovery construction, the cache write and async_create_task are recorders; time.monotonic is real",
     "encrypted notifications under the ideal partial-tag AEAD of C18, including authentic ones whose inner id is not in the cached database or whose plaintext is shorter than 12 bytes",
-    "NOT decided: the waiter half of C19 (async_find registration/arrival/timeout orders on the mDNS, BLE and aggregate controllers) needs asyncio.timeout/call_later/wait on a running loop; mDNS TXT parsing goes through zeroconf's compiled AsyncServiceInfo",
+    "waiter half (hand-driven, harness/c19w.py): every waiter is the real async_find coroutine; futures are harness objects with asyncio.Future's state machine (set_result on a finished future raises InvalidStateError); the harness performs three documented loop actions - resume a coroutine whose future is done (both orders; optionally only after the next callback), Task.cancel() (cancel the awaited future, or throw CancelledError at the wake-up if it is already done), fire a timer (loop.call_later callback / asyncio.timeout = Task.cancel turned into TimeoutError on exit); schedules of at most `events` selectors over the stated alphabet; excluded as ambiguous: a timeout after a cancellation of the same waiter and vice versa",
+    "NOT decided: the aggregate Controller.async_find (asyncio.create_task/asyncio.wait need a running loop); real timer accuracy; mDNS TXT parsing goes through zeroconf's compiled AsyncServiceInfo",
 ]
 
 
